@@ -146,12 +146,16 @@ let run_read (name : string) (root : int) (src : source) (want_reenc : bool) : s
      (match asts, want_reenc with
       | Some asts, true ->
         let tree = rd.rd_tree in
-        let rec frames src st asts k =
+        let rec frames src st asts k (acc : (n * wire list) list) =
           (match (match src with
                   | SrcBytes bs -> (match parse_frame bs with Inr ((fl, c), r) -> Some (fl, c, SrcBytes r) | Inl _ -> None)
                   | SrcFrames ((fl, c) :: r, t) -> Some (fl, c, SrcFrames (r, t))
                   | SrcFrames ([], _) -> None) with
-           | None -> Buffer.add_string out " reenc:ok"
+           | None -> Buffer.add_string out " reenc:ok";
+             (* the hypothesis of the whole-stream round-trip theorem (Props/C01.v), on the frames the
+                implementation emitted: they are byte for byte frame_encode of these wire trees *)
+             let ok = stream_ok sizes fuel tree (List.rev acc) wst0 RNil PositiveMap.Leaf in
+             Buffer.add_string out (if ok then " sok:1" else " sok:0")
            | Some (fl, content, src') ->
              (match parse_data_frame tree content with
               | Inl _ -> Buffer.add_string out (Printf.sprintf " reenc:parse@%d" k)
@@ -170,10 +174,10 @@ let run_read (name : string) (root : int) (src : source) (want_reenc : bool) : s
                 List.iter (fun ((bits, sd), td) ->
                   Buffer.add_string out (Printf.sprintf " m:%s:%s:%s" (string_of_n bits) (string_of_n sd)
                     (String.concat "," (List.map (fun (k, c) -> Printf.sprintf "%s=%s" (BigZ.to_string (z_of_pos k)) (string_of_n c)) td)))) tr;
-                if bytes = content then frames src' st' rest (k + 1)
+                if bytes = content then frames src' st' rest (k + 1) ((fl, mine) :: acc)
                 else Buffer.add_string out (Printf.sprintf " reenc:diff@%d:%s" k (hexs bytes)))) in
         (* skip the var header frame: reader_open consumed it; rd.rd_src is positioned after it *)
-        frames rd.rd_src wst0 asts 0
+        frames rd.rd_src wst0 asts 0 []
       | _ -> Buffer.add_string out " reenc:skip"));
   Buffer.contents out
 
